@@ -32,7 +32,7 @@ CONSTANTS
     NCs,          \* NodeClaim ids, e.g. {"N1", "N2"}
     NClaims,      \* number of claims
     Kinds,        \* claim kinds drawn from {"net", "net2", "shm2", "shm3", "gpu", "tshm"}
-    Pres,         \* pre-allocation variants (subset of 0..2): 0 none, 1 n0 allocated in the cluster, 2 m0 has 2 of its capacity consumed
+    Pres,         \* pre-allocation variants (subset of 0..5, see PreClaim): none / n0 or a share of m0 held by claims that stay or migrate
     Slots,        \* the in-cluster pool's counter is drawn from this set (each exclusive device consumes 1; 0 = no counter)
     W_OtherNC,    \* TRUE: a device in flight for ANOTHER NodeClaim is taken                       (FALSE = mutation)
     W_SameType,   \* TRUE: a device in flight for the same NodeClaim AND type is taken
@@ -41,18 +41,30 @@ CONSTANTS
     W_CapInflight,\* TRUE: the capacity check counts what other commitments have in flight
     W_CapDelta,   \* TRUE: Commit folds the NEW pessimistic maximum into the in-flight capacity (FALSE: only the first commitment of a NodeClaim counts)
     W_Counters,   \* TRUE: the pool counter is checked
-    W_Template    \* TRUE: a template device allocated for (NodeClaim, type) is taken for that pair
+    W_Template,   \* TRUE: a template device allocated for (NodeClaim, type) is taken for that pair
+    W_Releasable  \* TRUE: a device leaves the seed of allocated devices only if EVERY claim holding it migrates (FALSE = the rule the code
+                  \*       has today, known finding F-C17-1: "every POD consumer is leaving", whatever else holds the device)
 
 VARIABLES dra, surv, meta, inflight, tmpl, capBy, capIn, ctrBy, ctrLeft, tcapBy
 vars == <<dra, surv, meta, inflight, tmpl, capBy, capIn, ctrBy, ctrLeft, tcapBy>>
 
 Types == {"A", "B"}
 Dev(n, multi, cap, ctr) == [name |-> n, multi |-> multi, cap |-> cap, ctr |-> ctr]
-Claim(i, kind) == [name |-> "c" \o ToString(i), ns |-> "default", kind |-> kind, alloc |-> <<>>, allocZone |-> "", reserved |-> <<>>]
+Claim(i, kind) == [name |-> "c" \o ToString(i), ns |-> "default", kind |-> kind, alloc |-> <<>>, allocZone |-> "", reserved |-> <<>>, others |-> 0]
+PC(name, kind, dev, consumed, reserved, others) ==
+    [name |-> name, ns |-> "default", kind |-> kind, alloc |-> <<[driver |-> dev[1], pool |-> dev[2], device |-> dev[3], consumed |-> consumed]>>, allocZone |-> "",
+     reserved |-> reserved, others |-> others]
+N0 == <<"net", "np", "n0">>
+M0 == <<"shm", "sp", "m0">>
+\* the pod "bd" is being rescheduled in this pass (it sits on a node that is being removed)
+LeavingPods == {"bd"}
 PreClaim(pre) ==
-    IF pre = 1 THEN <<[name |-> "pc", ns |-> "default", kind |-> "net", alloc |-> <<[driver |-> "net", pool |-> "np", device |-> "n0", consumed |-> 0]>>, allocZone |-> "", reserved |-> <<>>]>>
-    ELSE IF pre = 2 THEN <<[name |-> "pc", ns |-> "default", kind |-> "shm2", alloc |-> <<[driver |-> "shm", pool |-> "sp", device |-> "m0", consumed |-> 2]>>, allocZone |-> "", reserved |-> <<>>]>>
-    ELSE <<>>
+    CASE pre = 1 -> <<PC("pc", "net", N0, 0, <<>>, 0)>>                                      \* n0 held by an unreserved claim
+      [] pre = 2 -> <<PC("pc", "shm2", M0, 2, <<>>, 0)>>                                     \* 2 of m0 consumed by an unreserved claim
+      [] pre = 3 -> <<PC("pc", "net", N0, 0, <<"bd">>, 0)>>                                  \* n0 held for the leaving pod only: the claim migrates
+      [] pre = 4 -> <<PC("pc", "net", N0, 0, <<"bd">>, 1)>>                                  \* ... and for a non-pod consumer: it stays
+      [] pre = 5 -> <<PC("pc", "shm2", M0, 2, <<>>, 0), PC("pm", "shm2", M0, 2, <<"bd">>, 0)>> \* m0: an unreserved share next to a migrating one
+      [] OTHER -> <<>>
 World(kinds, pre, slots) ==
     [slices |-> <<[name |-> "s1", driver |-> "net", pool |-> "np", slots |-> 0, devices |-> <<Dev("n0", FALSE, 0, IF slots > 0 THEN 1 ELSE 0), Dev("n1", FALSE, 0, IF slots > 0 THEN 1 ELSE 0)>>],
                   [name |-> "s2", driver |-> "shm", pool |-> "sp", slots |-> 0, devices |-> <<Dev("m0", TRUE, 5, 0)>>]>>
@@ -74,7 +86,18 @@ Cands(kind, t) ==
     IF KTemplate(kind) THEN {k \in TplDevKeys(dra, t) : k[1] = KDriver(kind)}
     ELSE {k \in InDevKeys(dra) : k[1] = KDriver(kind)}
 
-ClaimNames == {dra.claims[i].name : i \in {j \in DOMAIN dra.claims : dra.claims[j].alloc = <<>>}}
+\* claims to allocate in this pass: the unallocated ones and the migrating ones
+ClaimNames == {dra.claims[i].name : i \in {j \in DOMAIN dra.claims : dra.claims[j].alloc = <<>> \/ MigratingC(dra.claims[j], LeavingPods)}}
+\* the oracle's view of the cluster: migrating claims no longer hold their old devices
+Eff == EffD(dra, LeavingPods)
+(* the SEED of allocated devices the allocator starts from (gatherAllocatedDevices): per device, all claims holding it *)
+Holders(k) == {c \in DRange(dra.claims) : \E i \in DOMAIN c.alloc : <<c.alloc[i].driver, c.alloc[i].pool, c.alloc[i].device>> = k}
+PodConsumers(k) == UNION {DRange(c.reserved) : c \in Holders(k)}
+Dropped(k) == IF W_Releasable THEN \A c \in Holders(k) : MigratingC(c, LeavingPods)
+              ELSE PodConsumers(k) # {} /\ PodConsumers(k) \subseteq LeavingPods
+SeedKeys == {k \in PreKeys(dra) : ~Dropped(k)}
+\* seeded consumed capacity of a shared device: the shares of the claims that do not migrate (nothing if the device was dropped)
+SeedCap(k) == IF Dropped(k) THEN 0 ELSE DSum({e \in PreEntries(Eff) : e.k = k}, Cons)
 ClaimByName(n) == CHOOSE c \in DRange(dra.claims) : c.name = n
 Unallocated == {n \in ClaimNames : n \notin DOMAIN meta}
 
@@ -88,15 +111,15 @@ Init ==
     /\ capBy = [n \in NCs |-> <<>>]                  \* per NodeClaim: type -> consumed of m0 (domain = committed types)
     /\ capIn = 0                                     \* in-flight consumed capacity of m0 (sum over NodeClaims of their pessimistic maximum)
     /\ ctrBy = [n \in NCs |-> <<>>]                  \* per NodeClaim: type -> counter consumption of pool np
-    /\ ctrLeft = InSlots(dra, "net", "np") - DSum({k \in PreKeys(dra) : k \in InDevKeys(dra)}, LAMBDA k : InDev(dra, k).ctr)
+    /\ ctrLeft = InSlots(dra, "net", "np") - DSum({k \in SeedKeys : k \in InDevKeys(dra)}, LAMBDA k : InDev(dra, k).ctr)
     /\ tcapBy = [n \in NCs |-> [t \in Types |-> 0]]  \* consumed capacity of the shared template device t0 per (NodeClaim, type)
 
 MaxOf(f) == IF DOMAIN f = {} THEN 0 ELSE LET S == {f[t] : t \in DOMAIN f} IN CHOOSE x \in S : \A y \in S : y <= x
-PreCap == DSum({e \in PreEntries(dra) : e.k = <<"shm", "sp", "m0">>}, Cons)
+PreCap == SeedCap(M0)
 
 \* is exclusive in-cluster device k taken for (nc, t) as the tracker sees it
 Taken(k, nc, t) ==
-    \/ (W_Prealloc /\ k \in PreKeys(dra))
+    \/ (W_Prealloc /\ k \in SeedKeys)
     \/ /\ k \in DOMAIN inflight
        /\ \/ (W_OtherNC /\ inflight[k].nc # nc)
           \/ (W_SameType /\ inflight[k].nc = nc /\ t \in inflight[k].types)
@@ -182,9 +205,9 @@ Recs == {[claim |-> c, nodeclaim |-> meta[c].nodeclaim, devs |-> LET S == meta[c
             LET RECURSIVE Enum(_)
                 Enum(X) == IF X = {} THEN <<>> ELSE LET x == CHOOSE y \in X : TRUE IN <<x>> \o Enum(X \ {x})
             IN Enum(S)] : c \in DOMAIN meta}
-Inv_C17_DeviceExclusive == LET R == Recs IN G_C17_DeviceExclusive(dra, R, surv)
-Inv_C17_SharedCapacity == LET R == Recs IN G_C17_SharedCapacity(dra, R, surv)
-Inv_C17_Counters == LET R == Recs IN G_C17_Counters(dra, R, surv)
+Inv_C17_DeviceExclusive == LET R == Recs IN G_C17_DeviceExclusive(Eff, R, surv)
+Inv_C17_SharedCapacity == LET R == Recs IN G_C17_SharedCapacity(Eff, R, surv)
+Inv_C17_Counters == LET R == Recs IN G_C17_Counters(Eff, R, surv)
 \* the tracker's in-flight figures never under-estimate what some resolution consumes
 Inv_C17_TrackerCoversEveryResolution ==
     /\ capIn >= 0
